@@ -257,17 +257,8 @@ def trace_validate(chk: core.Check, lines: list, name: str = "trace"):
             fh.write(json.dumps(ln) + "\n")
     cfg = "INIT Init\nNEXT Next\nPOSTCONDITION Done\nCHECK_DEADLOCK FALSE\n"
     r = tlc.run(chk.wd, "Trace_Content", cfg, workers=1, timeout=3000, env={"TRACE_FILE": str(f)})
-    rej = {}
-    for ln in r.stdout.splitlines():
-        if ln.startswith('<<"REJECT"'):
-            parts = ln.split(",", 2)
-            rej[int(parts[1])] = {x for x in ("C01", "C02") if x in parts[2]}
     chk.note_tlc(f"Trace_Content/{name}", r, "trace-validation")
-    if r.distinct - 1 != len(lines):
-        raise tlc.MachineryError(f"Trace_Content consumed {r.distinct - 1} of {len(lines)} lines\n" + r.stdout[-3000:])
-    if not r.ok and not rej:
-        raise tlc.MachineryError("Trace_Content failed without naming a line:\n" + r.stdout[-3000:])
-    return rej
+    return {i: {x for x in ("C01", "C02") if x in json.dumps(info)} for i, info in tlc.rejected(r, len(lines), "Trace_Content").items()}
 
 
 def run(chk: core.Check, pid: str):
